@@ -4,6 +4,7 @@
 import Rl2tp.Proofs.Options
 import Rl2tp.Proofs.SpecBridge
 import Rl2tp.Proofs.GenTables
+import Rl2tp.Proofs.GenSizes
 namespace Rl2tp.C14
 
 /-- accepted under stronger options ⇒ accepted with the same value (and the same remaining input)
@@ -192,5 +193,12 @@ theorem source_flag_bits (w : UInt16) :
     reservedOk w = Gen.reservedBits.all (fun i => !fbit w i) ∧
     version w = UInt8.ofNat (w.toNat / 2 ^ Gen.versionShift % (Gen.versionMask + 1)) :=
   ⟨GenTables.flag_bits_is_model w, GenTables.reserved_bits_is_model w, GenTables.version_field_is_model w⟩
+
+/-- the version the default options insist on is the source's `PROTOCOL_VERSION` (re-read by bin/gentables on every run) -/
+theorem source_default_version :
+    ∀ v ∈ List.range 16, v ≠ GenSizes.cc "PROTOCOL_VERSION" →
+      (decodeDefault : M Bytes (List DErr) Msg) ([0x13, UInt8.ofNat (16 * v), 0, 12] ++ GenSizes.zeros 8)
+        = .err [.invalidVersion (UInt8.ofNat v)] ([0, 12] ++ GenSizes.zeros 8) :=
+  GenSizes.protocol_version_is_model.1
 
 end Rl2tp.C14
